@@ -75,7 +75,7 @@ _JUDGED_EXC = [None]  # the exception object a hook has already turned into a ve
 
 
 def classes(tier):
-    return ["builtin", "symbolic", "wrapped", "custom", "mixed", "circuitset", "edge", "history", "channel"]
+    return ["builtin", "symbolic", "wrapped", "custom", "mixed", "circuitset", "edge", "history", "channel", "shortlived"]
 
 
 # ============================================================================ structural walker
@@ -1552,6 +1552,37 @@ def run_case(ctx):
         ctx.describe(f"circuitset[{mode}] via {how}: [{' | '.join(describe_circuit(c) for c in cs)}]",
                      any(is_nontrivial(c) for c in cs))
         _run(ctx, cs, how)
+        return
+    if cls == "shortlived":
+        # a worker loop: build a circuit around a FRESH custom gate definition, ship it, drop everything, next one.
+        # The definitions share their name and parameter list and differ in their matrix; each dies before the next
+        # one is made, so object addresses (and anything remembered per address, per name or per parameter list)
+        # come round again.  Nothing of an earlier iteration is kept alive by the harness.
+        name = rng.choice(_safe_custom_names())
+        nparams = rng.choice([0, 1, 1])
+        th = sympy.Symbol(rng.choice(["theta", "alpha", "x"]))
+        n_iter = rng.randint(12, 30)
+        how = rng.choice(["dict", "dict", "stringio"])
+        ctx.describe(f"shortlived {n_iter} definitions named {name} ({nparams} params) via {how}", True)
+        c = d = None
+        for i in range(n_iter):
+            _REG.clear()
+            _EXPR.clear()
+            c = d = None
+            if nparams:
+                k = rng.randint(1, 9)
+                M = sympy.Matrix([[1, 0], [0, sympy.exp(sympy.I * k * th)]]) if rng.random() < 0.5 else \
+                    sympy.Matrix([[sympy.cos(k * th), -sympy.sin(k * th)], [sympy.sin(k * th), sympy.cos(k * th)]])
+                d = CustomGateDefinition(gate_name=name, matrix=M, params_ordering=(th,))
+                g = d(rng.choice([th, round(rng.uniform(-3, 3), 3), th / 2]))
+            else:
+                d = GC.numeric_custom_def(rng, nprng, 1, name)
+                g = d()
+            ops = [g(rng.randrange(2))]
+            if rng.random() < 0.3:
+                ops.append(g.controlled(1)(0, 1))
+            c = Circuit(ops, n_qubits=2)
+            _run(ctx, c, how)
         return
     if cls == "history":
         # several tasks in flight: everything is serialised first, then read back in another order, some
